@@ -125,7 +125,8 @@ class Cron(addons.AddonMainTask, block.SBlock):
         reload = Flag(True)     # reload will also initialize the index
         short_sleep = False     # alternative sleep function used => do not compute overhead
         while True:
-            if reload.test_clear():
+            reloaded = reload.test_clear()
+            if reloaded:
                 timetable = sorted(_SET24.union(self._alarms))
                 tlen = len(timetable)
                 self.log_debug("time schedule reloaded")
@@ -133,6 +134,13 @@ class Cron(addons.AddonMainTask, block.SBlock):
 
             nowdt = self.dtnow()
             nowt = nowdt.time()
+            if reloaded:
+                # An alarm registered by add_block() may have passed before this reload was
+                # processed (the task could have been in a short non-interruptible sleep).
+                # Such an alarm is not in the future any more, update the blocks now.
+                for blk in set().union(*self._alarms.values()):
+                    assert hasattr(blk, 'recalc')
+                    blk.recalc(nowdt)
             if index is None:
                 index = bisect.bisect_left(timetable, nowt) % tlen
             wakeup = timetable[index]
